@@ -5,7 +5,7 @@ from __future__ import annotations
 
 import typing as t
 
-from ..absint import eval_term
+from ..absint import IdentityUndetermined, eval_term
 from ..effects import DeepInline, Eff, Effects, Slots
 from ..facts import AnalysisError
 from ..terms import const, contains, is_const, show, strip_sites, subterms
@@ -389,8 +389,11 @@ def arming(cx: Ctx, rule: str):
                     okc = True
                     for c, v, _, _ in p.conds:
                         if contains(c, lambda s: s == ttl):
-                            if bool(eval_term(c, leaf)) != v:
-                                okc = False
+                            try:
+                                if bool(eval_term(c, leaf)) != v:
+                                    okc = False
+                            except IdentityUndetermined:
+                                pass  # `ttl is TTL_FOREVER`: a TTL that arrives from the wire is equal, not identical - both ways
                     if okc:
                         hits.append(p)
                 except AnalysisError:
